@@ -422,6 +422,7 @@ func str2numFunc(scope *scope, args []value) (value, error) {
 	s := args[0].(*stringVal)
 	n, err := strconv.ParseFloat(s.V, 64)
 	if err != nil {
+		n = 0 // e.g. out-of-range input makes ParseFloat return ±Inf with an error
 		msg := fmt.Sprintf("str2num: cannot parse %q", s.V)
 		setGlobalErr(scope, msg)
 	}
